@@ -142,7 +142,7 @@ ApplyEdit(leaf, e) ==
 (* 4. Locations: where a leaf sits in the one-operation document           *)
 (***************************************************************************)
 ParamLocs == {"query", "header", "path", "formData"}
-BodyLocs  == {"body_prop", "body_ref_prop", "body_allof_prop", "body_items", "body_nested", "body_root"}
+BodyLocs  == {"body_prop", "body_ref_prop", "body_allof_prop", "body_own_allof", "body_own_allofref", "body_items", "body_nested", "body_root"}
 RespLocs  == {"resp_prop"}
 Locs      == ParamLocs \cup BodyLocs
 
@@ -172,6 +172,12 @@ Embed(loc, leaf, req, cf) ==
     [] loc = "body_allof_prop" ->
          Put([BaseAOS EXCEPT !.defs = [D |-> [type |-> "object", properties |-> [q |-> [type |-> "string"]]]]],
              "body", [allOf |-> <<[ref |-> "D"], ObjWith(leaf, req)>>])
+    \* the schema has its own properties AND an allOf member (inline or $ref) that carries the leaf
+    [] loc = "body_own_allof" ->
+         Put(BaseAOS, "body", [type |-> "object", properties |-> [q |-> [type |-> "string"]], allOf |-> <<ObjWith(leaf, req)>>])
+    [] loc = "body_own_allofref" ->
+         Put([BaseAOS EXCEPT !.defs = [M |-> ObjWith(leaf, req)]], "body",
+             [type |-> "object", properties |-> [q |-> [type |-> "string"]], allOf |-> <<[ref |-> "M"]>>])
     [] loc = "body_items" -> Put(BaseAOS, "body", [type |-> "array", items |-> leaf])
     [] loc = "body_nested" ->
          Put(BaseAOS, "body", [type |-> "object", required |-> <<"o">>, properties |-> [o |-> ObjWith(leaf, req)]])
